@@ -54,3 +54,10 @@ func (c *Component) VerifUseTransport(p2pNode host.Host, sendRecvFunc p2p.SendRe
 	c.broadcastFunc = newClient(p2pNode, c.peers, sendRecvFunc, sendFunc,
 		c.srv.hashFunc, c.srv.signFunc, c.srv.verifyFunc).Broadcast
 }
+
+// VerifWrapSignFunc replaces the sign function the signature-request handler calls by wrap(current one), so
+// that the harness can hold a request inside the signing step while further requests enter the handler.
+// It must be called before the component serves requests.
+func (c *Component) VerifWrapSignFunc(wrap func(func(string, []byte) ([]byte, error)) func(string, []byte) ([]byte, error)) {
+	c.srv.signFunc = wrap(c.srv.signFunc)
+}
